@@ -285,6 +285,9 @@ func check(x *explore.Exec, sc *Scn, r *result) {
 				x.Fail("handover-stream-not-intact", "connection %d (%q) was handed over reading %q; %s", i, full, a.data, desc())
 			}
 		}
+		if count[want] > 0 && !r.servers[i].ReadDeadline().IsZero() {
+			x.Fail("deadline-armed-on-hand-over", "connection %d was handed over with the matching read deadline still armed (%v): a consumer that reads after the matching timeout gets an i/o timeout; %s", i, r.servers[i].ReadDeadline(), desc())
+		}
 		switch kind {
 		case 'F', 'G', 'W', 'S':
 			if kind == 'S' {
